@@ -174,6 +174,94 @@ def check_literal_text_in_patterns(ctx, d) -> None:
     ctx.floor(RID, n, 10, "calls of the re module in dsl.py")
 
 
+def check_producer_walk_terminates(ctx, d) -> None:
+    """A work-list loop of ScopeStack that follows references from one scope to ANOTHER scope (it pushes the location of an object it
+    looked up in self.scopes) walks a graph that a namespace can make cyclic (<a> consumes <b>, <b> consumes <a>): it needs a visited
+    set - a collection it adds what it pops to and tests membership in before expanding.  (Work lists over the finite tree of one
+    object need none and are not in scope.)"""
+    RID = "C06.R11-loops-make-progress"
+    n = 0
+    for q, f in sorted(d.functions.items()):
+        if not q.startswith("ScopeStack."):
+            continue
+        for w in source.walk_own(f):
+            if not (isinstance(w, ast.While) and isinstance(w.test, ast.Name)):
+                continue
+            L = w.test.id
+            pops = [c for c in ast.walk(w) if isinstance(c, ast.Call) and last_attr(c) == "pop" and isinstance(c.func.value, ast.Name) and c.func.value.id == L]
+            pushes = [c for c in ast.walk(w) if isinstance(c, ast.Call) and last_attr(c) in ("append", "extend", "insert") and isinstance(c.func.value, ast.Name)
+                      and c.func.value.id == L and c.args]
+            scope_locals = {t.id for a in ast.walk(w) if isinstance(a, (ast.Assign, ast.AnnAssign)) and getattr(a, "value", None) is not None
+                            and any(isinstance(x, ast.Attribute) and x.attr == "scopes" for x in ast.walk(a.value))
+                            for t in (a.targets if isinstance(a, ast.Assign) else [a.target]) if isinstance(t, ast.Name)}
+            follows = [c for c in pushes if any(isinstance(x, ast.Name) and x.id in scope_locals for x in ast.walk(c.args[-1]))]
+            if not (pops and follows):
+                continue
+            n += 1
+            ctx.analysed(f)
+            added = {c.func.value.id for c in ast.walk(w) if isinstance(c, ast.Call) and last_attr(c) in ("add", "append") and isinstance(c.func.value, ast.Name)
+                     and c.func.value.id != L}
+            tested = {x.id for t in ast.walk(w) if isinstance(t, ast.Compare) and isinstance(t.ops[0], (ast.In, ast.NotIn))
+                      for x in ast.walk(t.comparators[0]) if isinstance(x, ast.Name)}
+            visited = added & tested
+            ctx.ob(RID, w, bool(visited),
+                   "the walk over the producers keeps a visited set (%s)" % ", ".join(sorted(visited)) if visited else
+                   "%s follows references from scope to scope with a work list (%s) but keeps no visited set: two steps that consume from each other "
+                   "make the walk push the same two locations for ever - namespace_to_flowir never returns instead of rejecting the namespace"
+                   % (q, L), construct="%s: work list over producers <- visited set" % q.split(".")[-1])
+    ctx.floor(RID, n, 1, "work-list loops of ScopeStack that follow references between scopes")
+
+
+def check_user_variables_override_entrypoint(ctx) -> None:
+    """The arguments handed to the compiler as overrides of the entrypoint are (entrypoint arguments) THEN (the user's variables): the
+    user's values come last in the layering - as the last update() of a copy, or as the last '**' of a dictionary display."""
+    RID = "C06.R16-user-variables-override-the-entrypoint"
+    confm = ctx.repo.module("python/experiment/model/conf.py")
+    init = confm.func("DSLExperimentConfiguration.__init__")
+    ctx.analysed(init)
+    calls = [c for c in source.calls_in(init) if last_attr(c) == "namespace_to_flowir"]
+    ctx.require(bool(calls), "anchor missing: namespace_to_flowir(..) in DSLExperimentConfiguration.__init__")
+    user_locals = set(match.locals_where(init, lambda v: isinstance(v, ast.Call) and last_attr(v) == "layer_many_variable_files"))
+    ctx.require(bool(user_locals), "anchor missing: <local> = layer_many_variable_files(..) in DSLExperimentConfiguration.__init__")
+
+    def is_user(e: ast.AST) -> bool:
+        return any(isinstance(x, ast.Name) and x.id in user_locals for x in ast.walk(e))
+
+    def is_entry(e: ast.AST) -> bool:
+        return any(isinstance(x, ast.Attribute) and x.attr in ("entrypoint", "args") for x in ast.walk(e))
+    n = 0
+    for c in calls:
+        ov = next((k.value for k in c.keywords if k.arg == "override_entrypoint_args"), None)
+        if not isinstance(ov, ast.Name):
+            continue
+        layers = []          # in the order they are applied
+        for st in sorted([x for x in source.walk_own(init) if isinstance(x, (ast.Assign, ast.Expr))], key=lambda x: x.lineno):
+            if isinstance(st, ast.Assign) and any(isinstance(t, ast.Name) and t.id == ov.id for t in st.targets):
+                v = st.value
+                if isinstance(v, ast.Constant) and v.value is None:
+                    continue
+                if isinstance(v, ast.Dict) and all(k is None for k in v.keys):
+                    layers = list(v.values)
+                elif isinstance(v, ast.Call) and last_attr(v) in ("copy", "dict", "deepcopy"):
+                    layers = [v]
+                else:
+                    layers = [v]
+            elif isinstance(st, ast.Expr) and isinstance(st.value, ast.Call) and last_attr(st.value) == "update" \
+                    and isinstance(st.value.func.value, ast.Name) and st.value.func.value.id == ov.id and st.value.args:
+                layers.append(st.value.args[0])
+        if not layers:
+            continue
+        n += 1
+        ok = is_user(layers[-1]) and not any(is_user(l) for l in layers[:-1]) and any(is_entry(l) for l in layers[:-1])
+        ctx.ob(RID, c, ok,
+               "the user's variables are layered last over the entrypoint's own arguments" if ok else
+               "the overrides of the entrypoint are layered as [%s]: the user's variables are not the LAST layer, so a parameter that the "
+               "entrypoint sets explicitly keeps the entrypoint's value although a variable file overrides it - the stale value is forwarded "
+               "down the call chain and substituted into the components" % ", ".join(short(l, 40) for l in layers),
+               construct="override_entrypoint_args = entrypoint args, then user variables")
+    ctx.floor(RID, n, 1, "constructions of the entrypoint overrides in DSLExperimentConfiguration.__init__")
+
+
 def check_split_full_prefix(ctx, d) -> None:
     """R6, full prefix: a scope becomes the candidate of split() only when ALL of its elements matched the reference."""
     sp = d.func("OutputReference.split")
@@ -576,6 +664,8 @@ def run(ctx) -> None:
     ctx.rule("C06.R15-run-time-text-in-patterns-is-escaped", "every call of the re module in dsl.py takes a pattern that is a constant / a module constant / "
              "a parameter, or an expression (f-string, %, +, join) whose non-constant parts are wrapped in re.escape() or are module-level "
              "sub-patterns: text that exists only at run time is matched literally")
+    ctx.rule("C06.R16-user-variables-override-the-entrypoint", "DSLExperimentConfiguration builds the entrypoint overrides as the entrypoint's own arguments "
+             "followed by the user's variables (last update / last '**'): a value from a variable file wins over an argument the entrypoint sets")
     ctx.rule("C06.R4-unique-names", "component names are numbered over the ordered components and every name is checked against the names already used")
     ctx.assume("implicit exceptions (KeyError, pydantic internals) are outside the model; FlowIRConcrete mutators called on the freshly built "
                "description are assumed not to raise except FlowIRComponentExists, which R4 excludes")
@@ -817,6 +907,8 @@ def run(ctx) -> None:
     check_substitution_traverses_dictionaries(ctx, d)
     check_split_full_prefix(ctx, d)
     check_literal_text_in_patterns(ctx, d)
+    check_user_variables_override_entrypoint(ctx)
+    check_producer_walk_terminates(ctx, d)
 
     # ---------------- R6 -------------------------------------------------------------------------------
     sp = d.func("OutputReference.split")
